@@ -565,17 +565,15 @@ impl ConfigFile {
     ) {
         for (_unit_name, unit_table_value) in units.iter_mut() {
             if let Value::Table(unit_table) = unit_table_value {
-                if let Some(source) = unit_table.get_mut("source") {
-                    match source {
-                        Value::String(old_source) => {
-                            if let Some(new_source) =
-                                source_remappings.get(old_source)
-                            {
-                                old_source.clone_from(new_source);
-                            }
-                        }
-
-                        _ => unreachable!(),
+                // Values of any other type than the expected ones are left
+                // untouched here: deserialization will report them as errors.
+                if let Some(Value::String(old_source)) =
+                    unit_table.get_mut("source")
+                {
+                    if let Some(new_source) =
+                        source_remappings.get(old_source)
+                    {
+                        old_source.clone_from(new_source);
                     }
                 }
                 if let Some(sources) = unit_table.get_mut("sources") {
@@ -590,21 +588,18 @@ impl ConfigFile {
 
                         Value::Array(old_sources) => {
                             for old_source in old_sources {
-                                match old_source {
-                                    Value::String(old_source) => {
-                                        if let Some(new_source) =
-                                            source_remappings.get(old_source)
-                                        {
-                                            old_source.clone_from(new_source);
-                                        }
+                                if let Value::String(old_source) = old_source
+                                {
+                                    if let Some(new_source) =
+                                        source_remappings.get(old_source)
+                                    {
+                                        old_source.clone_from(new_source);
                                     }
-
-                                    _ => unreachable!(),
                                 }
                             }
                         }
 
-                        _ => unreachable!(),
+                        _ => {}
                     }
                 }
             }
